@@ -365,6 +365,38 @@ fn c18_batches(tier: &str) -> Vec<Batch> {
     vec![Batch { name: "c18-main".into(), profile: c18_profile(), runs: scale(tier, 15_000, 400_000), exec: exec_c18, strata: None }]
 }
 
+fn exec_c19_ctx(p: &Profile, cfg: &RunCfg) -> (RunOut, MonOut) {
+    let (out, _w, _s) = run_sm(p, cfg);
+    let mon = c08::run(&out, "C19");
+    (out, mon)
+}
+fn exec_c19_install(p: &Profile, cfg: &RunCfg) -> (RunOut, MonOut) {
+    let (out, _w, _s) = run_sm(p, cfg);
+    let mut mon = c18::run(&out, "C19", 0);
+    // only the rules about stored times belong to C19 (the crash window between report and
+    // clear is C18's known finding)
+    mon.violations.retain(|v| !v.site.starts_with("double-report") && (v.rule == "C19.R1" || v.detail.contains("duration")));
+    (out, mon)
+}
+
+fn c19_batches(tier: &str) -> Vec<Batch> {
+    let mut a = c08_profile();
+    a.name = "c19-context".into();
+    a.wall_init = [2, 4, 1, 4];
+    a.disk.hostile_init = 500;
+    a.net.none = 600;
+    a.net.transport = 150;
+    a.net.status = 100;
+    let mut b = c18_profile();
+    b.name = "c19-install".into();
+    b.wall_init = [1, 4, 0, 4];
+    b.crash_permille = 150;
+    vec![
+        Batch { name: "c19-context".into(), profile: a, runs: scale(tier, 12_000, 300_000), exec: exec_c19_ctx, strata: None },
+        Batch { name: "c19-install".into(), profile: b, runs: scale(tier, 10_000, 200_000), exec: exec_c19_install, strata: None },
+    ]
+}
+
 fn c01_batches(tier: &str) -> Vec<Batch> {
     vec![Batch { name: "c01-main".into(), profile: Profile::base("c01"), runs: scale(tier, 20_000, 600_000), exec: crate::cup::run_cup, strata: None }]
 }
@@ -587,6 +619,7 @@ pub fn all() -> Vec<PropDef> {
         def("C14", "hostile inputs combined with the flow: arbitrary/garbage/bit-flipped/truncated response bytes, statuses, header values, hostile initial storage (wrong types, negatives, i64/u32 extremes for every key), malformed service URLs, wall-clock jumps (backwards, pre-epoch, sub-microsecond, far future), metrics-sink errors, crashes, with a formatting tracing subscriber installed; plus differential re-runs (same seed, storage failures live vs off) comparing requests sent and events announced; a case is one run; distinct = set of fault kinds that fired", vec!["policy and installer answers conform to their contracts", "panic attribution: the executor marks when library code is running; a panic raised inside a dependency while the mark is set counts", "differential rule is evaluated within one lifetime (what is stored legitimately differs afterwards)"], c14_batches),
         def("C17", "the real client (RequestBuilder, CUP handler, parser, whole state machine) against the real mock_omaha_server::handle_request called in-process; service-URL variants, 1-3 apps, key configurations with latest/historical ids on either side, per-app response kinds, forced ETag, admin reconfigurations racing with exchanges; a case is one answered request; distinct = (configured kinds, cup, url)", vec!["requests outside the stated class (ping-only) are not sent in this profile", "the transport seam converts the absolute-form URI to origin-form, as an HTTP client does"], c17_batches),
         def("C18", "histories of install attempts (plan ids stable or fresh, per-app results, system app at any index, manifest version present or not) with crashes at drawn interactions, reboots into the target or another version and restart delays; metrics, call order and restart behaviour compared with a model of first-seen time, consecutive failed installs and the pending-reboot record; a case is one install or one restart; distinct = outcome signature", vec!["wall-clock jumps happen only between lifetimes; durations derived from a stored (microsecond) time are compared with 1 us tolerance", "an attempt cut by a crash may count or not", "when the system app is not part of the update the target version on record is not judged"], c18_batches),
+        def("C19", "persistence path only: wall clocks at nanosecond granularity before/after the epoch, at and beyond the i64-microsecond limits, and hostile stored integers over the whole i64 range; every time the library stores (last contact, first seen, finish) must come back after a restart as the instant truncated toward the epoch at microsecond precision, be dropped exactly when it does not fit, and be presented and re-persisted unchanged when it was read from storage; exact (0 ns tolerance) duration comparisons; a case is one stored time round trip", vec!["the two-clock algebra and truncate_submicrosecond_walltime are pure functions reached by no simulated seam: not claimed (DESIGN.md 6.C19)"], c19_batches),
         def("C11", "up to 4 handle clones issuing up to 6 requests released inside in-flight operations (timer waits, HTTP exchanges, policy questions, plan creation, install steps, reboot wait) with batch readiness so select! order (a seeded decision) matters; handles and stream dropped at drawn moments; interval-style oracle on global sequence numbers; a case is one request; distinct = (reply, options)", vec!["a request left unanswered when the run is cut is not judged", "wake-up without timer is judged in a profile whose timers are >= 10 h away and whose operation latencies are < 1 min"], c11_batches),
         def("C12", "check timings over {wall, monotonic, both} x {minimum wait or none}; timers fire late and in any order; throttled iterations; reboot waits with pings; a case is one wait; distinct = timing shape", vec!["timers never fire early"], c12_batches),
         def("C08", "histories of checks and reboot-wait pings over all outcome classes on a disk with a volatile write cache; probe restart after every commit; real crashes at drawn interactions with rebuild; a case is one check/ping outcome; distinct = (ground-truth outcome, announced result class)", vec!["commit is atomic; reads see uncommitted writes (Storage contract)", "which clock reading inside the check becomes the last-contact time is left open"], c08_batches),
